@@ -69,6 +69,8 @@ def _model_classes():
         def execute(self):
             m = self.model
             if m.fail and m.systems.timestep == 1:
+                if m.fail == 'stop':       # e.g. next() on an exhausted iterator inside user code
+                    raise StopIteration(f'execution a={m.a} b={m.b} failed')
                 raise RuntimeError(f'execution a={m.a} b={m.b} failed')
             m.work += 1
             if m.systems.timestep >= m.stop:
@@ -206,12 +208,14 @@ def run_history(case, props=None):
                 exp.append({c_: list(recs) for c_ in collectors})
         try:
             if fail_at is not None:
-                params['fail'] = [False, True] if fail_at == 'last' else [True, False]
+                bad = 'stop' if fail_at.endswith('-stop') else True
+                params['fail'] = [False, bad] if fail_at.startswith('last') else [bad, False]
                 try:
                     B.batch_run(BM, params, collectors=collectors, processes=procs, max_timesteps=max(max_t, 3),
                                 repetitions=reps)
-                    out.append(('C15', f'a failing execution (processes={procs}) was dropped silently'))
-                except RuntimeError:
+                    out.append(('C15', f'a failing execution ({"StopIteration" if bad == "stop" else "RuntimeError"}, '
+                                       f'processes={procs}, position {fail_at}) was dropped silently'))
+                except (RuntimeError, StopIteration):
                     pass
                 except Exception as ex:
                     if 'failed' not in str(ex):
@@ -358,14 +362,15 @@ def histories(seed, budget, prop='C14'):
             ops.append(('build',))
             yield ('plist', ops)
     elif prop == 'C15':
-        grids = [{'a': [1, 2], 'b': [0, 1]}, {'a': [1, 2, 3]}, {'a': 4}, {'a': [1, 2], 'stop': [1, 4]}, {}]
+        grids = [{'a': [1, 2], 'b': [0, 1]}, {'a': [1, 2, 3]}, {'a': 4}, {'a': [1, 2], 'stop': [1, 4]}, {},
+                 {'a': [1, 1, 2], 'b': [True, 1.0]}, {'a': [[1, 2], [3, 4], [0, 0]], 'b': [0, 1]}]
         for g in grids:
             for reps in (1, 2):
                 for max_t in (0, 1, 2, 3, 6):
                     for coll in ('rec', ['rec', 'rec2'], None):
                         yield ('batch', g, reps, max_t, coll, 1, None)
         for g in grids[:2]:
-            for fail_at in ('first', 'last'):
+            for fail_at in ('first', 'last', 'first-stop', 'last-stop'):
                 yield ('batch', g, 1, 3, 'rec', 1, fail_at)
         yield ('batch_pl', {'a': [1, 2], 'b': [0, 1]}, [('remove', 'b'), ('add', 'b', [5]), ('remove', 'a')], 1, 0, 1, 'sum')
         yield ('batch_pl', {'a': [1, 2, 3]}, [('add', 'b', [0, 1]), ('remove', 'a'), ('add', 'a', 7)], 2, 0, 1, 'sum')
@@ -373,6 +378,8 @@ def histories(seed, budget, prop='C14'):
             yield ('batch', grids[0], 2, 3, 'rec', procs, None)
             yield ('batch', grids[3], 1, 2, ['rec', 'rec2'], procs, None)
             yield ('batch', grids[0], 1, 3, 'rec', procs, 'first')
+            yield ('batch', grids[0], 1, 3, 'rec', procs, 'last-stop')
+            yield ('batch', grids[1], 2, 3, 'rec', procs, 'first-stop')
     else:
         grids = [{'a': [1, 2, 3]}, {'a': [3, 1, 2], 'b': [0, 1]}, {'a': [2, 2, 1, 1]}, {'a': 5}]
         for g in grids:
